@@ -182,6 +182,17 @@ def Closed (h : Host) : Prop :=
 
 instance (h : Host) : Decidable (Closed h) := by unfold Closed; infer_instance
 
+/-- blocks that may be interleaved with a running close: everything except the close's own blocks and the
+completion of a registration (`probeStep true`: registry add + first announcement) -/
+def Block.mid : Block → Bool
+  | .closeCall | .closeGoodbye | .closeShutdown | .closeFinish => false
+  | .probeStep true => false
+  | _ => true
+
+def isGoodbye : Out → Bool
+  | .goodbye => true
+  | _ => false
+
 /-! ### the acceptor used by the correspondence harness
 
 The harness reads `(done, transports closed, cleanup armed)` from the real objects at the start of every
